@@ -14,6 +14,7 @@ import (
 	"context"
 	"errors"
 	"fmt"
+	"net"
 	"net/netip"
 	"regexp"
 	"sort"
@@ -235,12 +236,19 @@ func vfC08Run(e *vfEnv, r *vfResult, idx int, plan vfC08Plan) { //nolint:cyclop,
 	var smu sync.Mutex
 	trigger := plan.From
 	armed := atomic.Bool{}
+	var handlersRunning atomic.Int32
+	slowClosedHandler := rng.IntN(3) == 0 // the application's Closed handler takes a while
 	_ = a.OnConnectionStateChange(func(cs ConnectionState) {
+		handlersRunning.Add(1)
+		defer handlersRunning.Add(-1)
 		smu.Lock()
 		states = append(states, cs)
 		smu.Unlock()
 		if trigger == "state-callback" && armed.Load() {
 			launchClosers(true)
+		}
+		if cs == ConnectionStateClosed && slowClosedHandler {
+			time.Sleep(15 * time.Millisecond)
 		}
 	})
 	_ = a.OnCandidate(func(c Candidate) {
@@ -406,6 +414,18 @@ func vfC08Run(e *vfEnv, r *vfResult, idx int, plan vfC08Plan) { //nolint:cyclop,
 		if plan.Position == "connected" {
 			// traffic in flight
 			_, _ = A.conn.Write([]byte("\x90hello"))
+			// and application data that reached the agent but was not read before the close: a later Read must not yield it
+			readerParked := false
+			for _, pk := range plan.Parked {
+				if pk == "read" {
+					readerParked = true // a parked reader would (rightly) consume it before the close
+				}
+			}
+			if B.conn != nil && !readerParked {
+				_, _ = B.conn.Write([]byte("\x90stale application payload"))
+				s.deliverAll(true, 50)
+				_, _ = A.conn.Write([]byte("\x90hello again"))
+			}
 			closeNow()
 
 			return
@@ -481,10 +501,20 @@ func vfC08Run(e *vfEnv, r *vfResult, idx int, plan vfC08Plan) { //nolint:cyclop,
 	// every closer returned nil or an error but returned; repeated close afterwards returns too
 	for k := 0; k < 2; k++ {
 		rd := make(chan struct{})
-		go func() { _ = a.Close(); _ = a.GracefulClose(); close(rd) }()
+		var runningAtReturn int32
+		go func() {
+			_ = a.Close()
+			_ = a.GracefulClose()
+			runningAtReturn = handlersRunning.Load() // a GracefulClose that returned: no handler may be running, whoever closed first
+			close(rd)
+		}()
 		if ok, stuck, dump := vfAwaitOrStuck(rd, 5*time.Second); !ok && stuck {
 			wit["stacks"] = dump
 			r.violation("repeated-close-stuck", fmt.Sprintf("a repeated Close/GracefulClose after '%s' did not return", plan.Position), wit)
+
+			return
+		} else if ok && runningAtReturn > 0 {
+			r.violation("graceful-close-returned-while-handler-running", fmt.Sprintf("GracefulClose (called after the agent had already been closed by %s, position %s) returned while %d application handler(s) were still running", plan.Kind, plan.Position, runningAtReturn), wit)
 
 			return
 		}
@@ -635,6 +665,109 @@ func vfC08Run(e *vfEnv, r *vfResult, idx int, plan vfC08Plan) { //nolint:cyclop,
 	}
 }
 
+// vfC08LateCandidate: directed schedule around the pre-stop abort of Close.  The abort of the started candidates' socket
+// I/O is parked (SetDeadline on A's sockets waits on a gate); meanwhile a new local candidate is handed to the agent
+// (as a gatherer would) on a socket whose writes block forever, and a check tick is requested.  Once Close has begun the
+// task loop must not run those tasks any more; otherwise the late candidate's blocked write is never aborted and Close
+// never returns.
+func vfC08LateCandidate(e *vfEnv, r *vfResult, idx int) {
+	s := newVfSession(e, r, idx, "c08late")
+	s.mon.c03, s.mon.c04, s.mon.c06 = false, false, false
+	defer s.closeAll()
+	t := &vfTopo{AIPs: []string{"10.0.0.1"}, BIPs: []string{"10.1.0.1"}, NAT: map[string]string{}, SignalA: map[string]string{"10.0.0.1": "host"}, SignalB: map[string]string{"10.1.0.1": "host"}}
+	if err := s.setupPair(t, vfSideCfg{MaxBinding: 1000, TieBreaker: 7}, vfSideCfg{MaxBinding: 1000, TieBreaker: 8}, true, false); err != nil {
+		r.inconclusive(1)
+
+		return
+	}
+	pending, _ := s.signalList(t)
+	s.fairSuffix(&pending, 8, func() bool { ok, _ := s.bothConnectedMirror(); return ok })
+	if ok, _ := s.bothConnectedMirror(); !ok || s.broken != "" {
+		r.inconclusive(1)
+
+		return
+	}
+	a := s.A.a
+	gate := make(chan struct{})
+	s.sw.mu.Lock()
+	s.sw.parkDLOwner, s.sw.parkDLGate = "A", gate
+	s.sw.mu.Unlock()
+	kind := []string{"close", "graceful"}[s.rng.IntN(2)]
+	cdone := make(chan struct{})
+	go func() {
+		if kind == "graceful" {
+			_ = a.GracefulClose()
+		} else {
+			_ = a.Close()
+		}
+		close(cdone)
+	}()
+	parked := false
+	for dl := time.Now().Add(3 * time.Second); time.Now().Before(dl); time.Sleep(20 * time.Microsecond) {
+		if s.sw.parkedDL.Load() > 0 {
+			parked = true
+
+			break
+		}
+	}
+	// the late candidate, on a socket whose writes block
+	n2 := vfSimpleNet(s.sw, "A-late", "10.0.77.1")
+	conn2, err := n2.ListenUDP("udp", &net.UDPAddr{IP: net.ParseIP("10.0.77.1")})
+	lateAdded := false
+	if err == nil {
+		s.sw.mu.Lock()
+		s.sw.blockWrite["A-late"] = true
+		s.sw.mu.Unlock()
+		vc := conn2.(*vfConn) //nolint:forcetypeassert
+		if hc, err := NewCandidateHost(&CandidateHostConfig{Network: "udp", Address: "10.0.77.1", Port: int(vc.local.Port()), Component: 1}); err == nil {
+			res := make(chan error, 1)
+			go func() { res <- a.addCandidate(context.Background(), hc, conn2) }()
+			select {
+			case err := <-res:
+				lateAdded = err == nil
+				if err != nil {
+					_ = conn2.Close()
+				}
+			case <-time.After(2 * time.Second):
+			}
+		}
+	}
+	if lateAdded && s.A.tick != nil {
+		go s.A.tick() // a check round: pings every pair, also those of the late candidate
+		time.Sleep(500 * time.Microsecond)
+	}
+	s.sw.mu.Lock()
+	s.sw.parkDLGate = nil
+	s.sw.mu.Unlock()
+	close(gate)
+	ok, stuck, dump := vfAwaitOrStuck(cdone, 5*time.Second)
+	r.eval(1)
+	wit := map[string]any{"idx": idx, "kind": kind, "abort_parked": parked, "late_candidate_accepted_after_close_began": lateAdded}
+	if !ok {
+		if stuck {
+			wit["stacks"] = dump
+			r.violation("close-stuck:late-candidate-during-prestop", fmt.Sprintf("%s did not return: a candidate handed to the agent after Close had begun (accepted: %v) has a write blocked on its socket that nobody aborts", kind, lateAdded), wit)
+		} else {
+			r.inconclusive(1)
+		}
+		s.sw.mu.Lock()
+		s.sw.blockWrite["A-late"] = false
+		socks := append([]*vfConn{}, s.sw.all...)
+		s.sw.mu.Unlock()
+		for _, c := range socks {
+			if c.owner == "A-late" {
+				_ = c.SetWriteDeadline(time.Now())
+				_ = c.Close()
+			}
+		}
+		<-cdone
+
+		return
+	}
+	s.A.closed = true
+	r.distinct(fmt.Sprintf("c08late/%s/parked=%v/accepted=%v", kind, parked, lateAdded))
+}
+
 func TestVerifC08(t *testing.T) {
 	vfRun(t, "C08", func(e *vfEnv, r *vfResult) {
 		positions := []string{"new", "gathering", "gathered", "dialing", "checking", "connected", "restarted", "regathering", "regathering-then-restart"}
@@ -671,6 +804,9 @@ func TestVerifC08(t *testing.T) {
 				continue
 			}
 			vfC08Run(e, r, i, pl)
+		}
+		for i := 0; i < e.n(40, 1500); i++ {
+			vfC08LateCandidate(e, r, 5000000+i)
 		}
 	})
 }
